@@ -43,7 +43,7 @@ func (P *Prog) verifyFunc(key string, c11 bool) (res *FuncResult) {
 	}
 	x := &Exec{P: P, em: newEmitter(), top: fn, topSpec: spec, topKey: key, leaves: map[string]*LeafInfo{},
 		written: map[string]*WriteSet{}, notes: map[string]bool{}, assumedPanics: map[string]bool{}, strLits: map[string]string{},
-		usedSpecs: map[string]bool{}, assumedSpecs: map[string]bool{}, inlined: map[string]bool{}, inC11: c11, assumedClauses: map[string]bool{}}
+		usedSpecs: map[string]bool{}, assumedSpecs: map[string]bool{}, inlined: map[string]bool{}, inC11: c11, assumedClauses: map[string]bool{}, preds: map[string]*predDef{}, unfolded: map[string]bool{}, transferred: map[string]string{}}
 	res.Em = x.em
 	if spec != nil {
 		x.defProps = spec.Props
@@ -114,6 +114,9 @@ func (P *Prog) verifyFunc(key string, c11 bool) (res *FuncResult) {
 			x.setGhost(st, gs.Name, x.evalExpr(env, gs.Value))
 		}
 	}
+	if spec != nil && spec.Decr != nil {
+		x.entryMeasure = x.em.define("measure", "(_ BitVec 64)", x.term(x.toBV64(x.evalExpr(env, spec.Decr.Expr))))
+	}
 	res.regionTerms = map[string]string{}
 	if P.known != nil {
 		for _, f := range P.known.Findings {
@@ -135,20 +138,27 @@ func (P *Prog) verifyFunc(key string, c11 bool) (res *FuncResult) {
 		}
 	}
 	x.stack = []*ssa.Function{fn}
-	out, val := x.runBody(fr, st)
-	if spec != nil {
-		post := x.newEnv(fr, out, nil)
+	exitChecks := func(k, n int, r *retInfo) {
+		if spec == nil {
+			return
+		}
+		sfx := ""
+		if n > 1 {
+			sfx = fmt.Sprintf("#%d", k+1)
+		}
+		post := x.newEnv(fr, r.st, nil)
 		post.old = x.entry
-		x.bindResults(post, val, resultNames(fn.Signature))
+		x.bindResults(post, r.val, resultNames(fn.Signature))
 		for _, gs := range spec.GhostExits {
-			x.setGhost(out, gs.Name, x.evalExpr(post, gs.Value))
+			x.setGhost(r.st, gs.Name, x.evalExpr(post, gs.Value))
 		}
 		for _, c := range spec.Ensures {
-			p := x.evalBool(post, c.Expr)
-			x.oblige(fr, out, "ensures:"+c.Label, "ensures", p, c)
+			p, alt := x.evalBoolAlt(post, c.Expr)
+			x.obligeAlt(fr, r.st, "ensures:"+c.Label+sfx, "ensures", p, alt, c)
 		}
-		x.frameObligations(fr, out, spec)
+		x.frameObligations(fr, r.st, spec, sfx)
 	}
+	out, _ := x.runBodyWith(fr, st, exitChecks)
 	// vacuity: the normal exit must be reachable under the assumptions
 	if out.Reach != "false" {
 		x.em.oblige(&Obligation{Name: key + "/cover:return", Kind: "cover", Guard: out.Reach, Prop: "true", Cover: true, FnName: key, Props: x.defProps})
@@ -177,7 +187,7 @@ func (x *Exec) addInputs(name string, v Value) {
 }
 
 // frameObligations: nothing outside the modifies clause changed.
-func (x *Exec) frameObligations(fr *Frame, out *State, spec *FuncSpec) {
+func (x *Exec) frameObligations(fr *Frame, out *State, spec *FuncSpec, sfx string) {
 	if spec.ModAll {
 		return
 	}
@@ -185,7 +195,7 @@ func (x *Exec) frameObligations(fr *Frame, out *State, spec *FuncSpec) {
 	mods := x.evalModifies(env, spec.Modifies)
 	wholeOK := func(key string) bool {
 		for _, m := range mods {
-			if m.whole && (key == m.key || strings.HasPrefix(key, m.key+".") || strings.HasPrefix(key, m.key+"#")) {
+			if m.whole && (key == m.key || strings.HasPrefix(key, m.key+".") || strings.HasPrefix(key, m.key+"#") || strings.HasPrefix(key, m.key+"@")) {
 				return true
 			}
 		}
@@ -213,7 +223,7 @@ func (x *Exec) frameObligations(fr *Frame, out *State, spec *FuncSpec) {
 			}
 			if m.elems {
 				var leaves [][2]string
-				x.elemLeaves(m.slice.Elem, rootKey(types.NewSlice(m.slice.Elem)), &leaves)
+				x.elemLeaves(m.slice.Elem, x.regionOf(m.slice).key(), &leaves)
 				for _, l2 := range leaves {
 					if l2[0] == k {
 						bases = append(bases, m.slice.Base)
@@ -239,7 +249,7 @@ func (x *Exec) frameObligations(fr *Frame, out *State, spec *FuncSpec) {
 			conds = append(conds, not(eq(r, b)))
 		}
 		prop := implies(and(conds...), eq("(select "+cur+" "+r+")", "(select "+init+" "+r+")"))
-		x.oblige(fr, out, "frame:"+k, "frame", prop, nil)
+		x.oblige(fr, out, "frame:"+k+sfx, "frame", prop, nil)
 	}
 }
 
@@ -267,7 +277,7 @@ func (P *Prog) verifyLemma(key string, spec *FuncSpec) (res *FuncResult) {
 	res = &FuncResult{Key: key}
 	x := &Exec{P: P, em: newEmitter(), topSpec: spec, topKey: key, leaves: map[string]*LeafInfo{},
 		written: map[string]*WriteSet{}, notes: map[string]bool{}, assumedPanics: map[string]bool{}, strLits: map[string]string{},
-		usedSpecs: map[string]bool{}, assumedSpecs: map[string]bool{}, inlined: map[string]bool{}, assumedClauses: map[string]bool{}}
+		usedSpecs: map[string]bool{}, assumedSpecs: map[string]bool{}, inlined: map[string]bool{}, assumedClauses: map[string]bool{}, preds: map[string]*predDef{}, unfolded: map[string]bool{}, transferred: map[string]string{}}
 	res.Em = x.em
 	x.defProps = spec.Props
 	defer func() {
@@ -303,7 +313,8 @@ func (P *Prog) verifyLemma(key string, spec *FuncSpec) (res *FuncResult) {
 	}
 	env.old = x.entry
 	for _, c := range spec.Ensures {
-		x.oblige(fr, st, "ensures:"+c.Label, "lemma", x.evalBool(env, c.Expr), c)
+		p, alt := x.evalBoolAlt(env, c.Expr)
+		x.obligeAlt(fr, st, "ensures:"+c.Label, "lemma", p, alt, c)
 	}
 	x.em.oblige(&Obligation{Name: key + "/cover:requires", Kind: "cover", Guard: "true", Prop: "true", Cover: true, FnName: key, Props: x.defProps})
 	_, obls := x.em.script(0)
